@@ -27,6 +27,7 @@ def dispatch (fam : String) : Option (List String → String → Option Res) :=
   | "nohaltlong" => some runNoHalt
   | "supplylong" => some runSupply
   | "deposit" => some runDeposit
+  | "proposal" => some runProposal
   | "claim" => some runClaim
   | "oracle" => some runOracle
   | "oracle7" => some runOracle7
